@@ -43,6 +43,20 @@ fresh object.  A-B-A: after the same calls on a companion record (same length, s
 interior changed) the default-pair result for the word is still the word's.  Default-option calls (no start / end / se / im) follow the explicit ones on the same object and
 array; arguments are left unchanged (the array handed to calc_sig_dur_vals, the series a user measure returned).
 
+Object-level statistics (words below the length bound).  The deprecated public generators
+AccSignal.generate_duration_stats() / generate_all_motion_stats() store the significant-duration start / end of the
+array variant with the default fractions (sd_start, sd_end, t_595 = end - start) and the bracketed durations at
+0.01 g, 0.05 g and 0.1 g (t_b01, t_b05, t_b10) on the object.  For every word scaled by 2**-5 (weak record: PGA <=
+0.01 g, nothing exceeds any level), 2**-4 (only the largest samples exceed 0.01 g) and 0.25 (strong: three
+different exceedance sets), on a fresh object and on an object that held another (weak, one sample longer) record
+with its statistics generated before reset_values(record): whenever the generator returns, sd_start / sd_end must
+be readable and lie in the acceptance sets of the word (amplitude scaling by a power of two changes nothing),
+t_595 must be their difference, and each t_bXX whose level some sample exceeds must be the time between the first
+and last such samples (levels where 9.8 and 9.81 m/s2 for g select different samples are skipped; the value stored
+when nothing exceeds a level is not constrained).  The generator must leave the record alone.  On NumPy >= 2 the
+unchanged generator raises AttributeError (np.trapz) as soon as a sample exceeds 0.01 g - outside the properties,
+counted under disabled_transitions - so there only the weak records are observable.
+
 Zero prefix: the k*dt shift follows from the crossing definition exactly when the running
 series of the measure is shift-covariant - always for the running sum of squares and the
 staircase, for the trapezoid measures (Arias, calc_cav) iff the record starts at 0.  For
@@ -98,6 +112,15 @@ NARROW_SCALED = (('i8x32', np.int8, 32, lambda w: True), ('i16x8192', np.int16, 
 STAT_GENERATORS = ('generate_cumulative_stats', 'generate_duration_stats', 'generate_all_motion_stats',
                    'generate_displacement_and_velocity_series')
 LAZY = ('time', 'npts', 'velocity', 'displacement', 'pga', 'pgv', 'pgd', 'arias_intensity', 'cav')
+# object-level statistics: amplitude factors (powers of two: exact), generators, stored bracketed durations
+STATS_SCALES = (2.0 ** -5, 2.0 ** -4, 0.25)      # peak of the alphabet: 0.0625 (<= 0.01 g), 0.125, 0.5 m/s2
+STATS_PREV_SCALE = 2.0 ** -7                     # the record held before (values up to 7): weak as well
+STATS_GENERATORS = ('generate_duration_stats', 'generate_all_motion_stats')
+STATS_HISTORIES = ('fresh', 'other record (n+1), generator, reset_values')
+STATS_LEVELS = (('t_b01', Fraction('0.01')), ('t_b05', Fraction('0.05')), ('t_b10', Fraction('0.1')))   # in g
+G_READINGS = (Fraction('9.8'), Fraction('9.81'))
+NO_TRAPZ = ('object-level statistics: the deprecated generator uses np.trapz, which this NumPy does not have '
+            '(AttributeError for every record with a sample above 0.01 g; outside the properties)')
 ZEROS = (1, 2, 3)
 MEASURES = ('array', 'arias', 'cav', 'stair')
 TRAPEZOID = ('arias', 'cav')     # running series built from panels between neighbouring samples
@@ -170,6 +193,91 @@ def history_object(r, w, dt):
     return sg if ok else None
 
 
+def object_stats(r, w, dt, acc, cnt):
+    """Object-level statistics (see the module docstring): generators x amplitude factors x histories."""
+    n = len(w)
+    tol = TT * dt * max(n - 1, 1)
+    a_w = np.array(w, dtype=float)
+    prev = STATS_PREV_SCALE * np.array([3 * x + 1 for x in reversed(w)] + [2], dtype=float)
+    for c in STATS_SCALES:
+        a_c = c * a_w
+        cq = Fraction(c)
+        weak = all(cq * abs(x) <= STATS_LEVELS[0][1] * g for x in w for g in G_READINGS)
+        exceed = []
+        for attr, lvl in STATS_LEVELS:
+            sets = [[i for i, x in enumerate(w) if cq * abs(x) > lvl * g] for g in G_READINGS]
+            exceed.append((attr, sets[0] if sets[0] == sets[1] else None))
+        for gen in STATS_GENERATORS:
+            for hist in STATS_HISTORIES:
+                sub = {'w': w, 'dt': dt, 'scale': c, 'generator': gen, 'object_history': hist}
+                subf = lambda: sub  # noqa
+                r.states += 1
+                if hist == 'fresh':
+                    ok, sg = r.call('construct', sub, eqsig.AccSignal, a_c.copy(), dt)
+                    if not ok:
+                        continue
+                else:
+                    ok, sg = r.call('construct', sub, eqsig.AccSignal, prev.copy(), dt)
+                    if not ok:
+                        continue
+                    try:
+                        getattr(sg, gen)()
+                    except Exception:   # noqa  (the other record is not what is checked)
+                        pass
+                    r.transitions += 1
+                    ok, _ = r.call('stats.reset_values', sub, sg.reset_values, a_c.copy())
+                    if not ok:
+                        continue
+                r.evals += 1
+                try:
+                    getattr(sg, gen)()
+                except Exception as e:  # noqa
+                    if isinstance(e, AttributeError) and 'trapz' in str(e):
+                        r.disabled[NO_TRAPZ] += 1
+                        cnt['stats-generator-needs-np-trapz'] += 1
+                    elif isinstance(e, IndexError) and acc.mode != 'must':
+                        cnt['precondition-false-raises' if acc.mode == 'none' else 'rounding-tie-precondition-raises'] += 1
+                    elif acc.mode == 'must':
+                        r.evals -= 1
+                        r.call('stats.sigdur', sub, _reraise, e)
+                    continue
+                cnt['stats-weak-record' if weak else 'stats-strong-record'] += 1
+                cnt['stats-fresh-object' if hist == 'fresh' else 'stats-after-reset-values'] += 1
+                if acc.mode != 'none':
+                    try:
+                        got = (sg.sd_start, sg.sd_end, sg.t_595)
+                    except Exception as e:  # noqa
+                        r.n_cmp += 1
+                        r.fail('stats.sigdur', sub, 'the generator returned but sd_start / sd_end / t_595 cannot be '
+                               'read: %s: %s' % (type(e).__name__, str(e)[:120]), expected=_expected(acc))
+                        got = None
+                    if got is not None:
+                        cnt['stats-sigdur-checked'] += 1
+                        g = check_pair(r, 'stats.sigdur', subf, got[:2], acc, dt, n)
+                        d = check_dur(r, 'stats.t_595', subf, got[2], acc, dt, n)
+                        if g is not None and d is not None:
+                            r.expect('stats.t_595', sub, abs(d - (g[1] - g[0]) * dt) <= tol,
+                                     't_595 is not sd_end - sd_start', observed=got)
+                for attr, idx in exceed:
+                    if idx is None:
+                        cnt['stats-brac-level-depends-on-g'] += 1
+                        continue
+                    if not idx:
+                        cnt['stats-brac-none-exceeds'] += 1      # the stored value is not constrained
+                        continue
+                    cnt['stats-brac-some-exceed'] += 1
+                    d = scalar(getattr(sg, attr, None))
+                    want = (idx[-1] - idx[0]) * dt
+                    r.expect('stats.brac', dict(sub, attribute=attr), d is not None and abs(d - want) <= tol,
+                             'stored bracketed duration is not the time between the first and last samples above the '
+                             'level', observed=getattr(sg, attr, None), expected=want)
+                try:
+                    held = sg.values.tolist() == a_c.tolist() and float(sg.dt) == dt
+                except Exception:   # noqa
+                    held = False
+                r.expect('purity.object', sub, held, 'the generator changed the record / dt of the object')
+
+
 def build(tier, seed):
     L = 6 if tier == 'quick' else 8
     L_rel = L - 1
@@ -190,9 +298,13 @@ def build(tier, seed):
                 'with a history (another record of length n+1, another record of length n, on both the duration '
                 'functions, the stat generators and all lazy properties, then reset_values(word)): Arias default and '
                 'calc_cav x all fraction pairs and calc_brac_dur x all thresholds; '
+                'object-level statistics for length <= %d: generators %s x amplitude factors %s x histories %s: stored '
+                'sd_start / sd_end / t_595 against the acceptance sets of the array variant with the default fractions, '
+                'stored t_b01 / t_b05 / t_b10 against the exact exceedance sets where some sample exceeds the level; '
                 'non-trivial = every enumerated word (none is identically zero)'
                 % (L, list(DTS), len(PAIRS), list(FRACS), L_rel, list(THRESHOLDS), list(BRAC_SMALL), list(SCALES),
-                   list(ZEROS), L_rel, list(EXTREME_MEASURES), [list(e) for e in EDGE_FRACS], L_rel),
+                   list(ZEROS), L_rel, list(EXTREME_MEASURES), [list(e) for e in EDGE_FRACS], L_rel, L_rel,
+                   list(STATS_GENERATORS), list(STATS_SCALES), list(STATS_HISTORIES)),
         'bounds': {'alphabet': SIGMA, 'max_len': L, 'max_len_relations': L_rel, 'dt': DTS, 'fractions': FRACS,
                    'thresholds': THRESHOLDS, 'scales': SCALES, 'prepended_zeros': ZEROS, 'measures': MEASURES,
                    'bracketed_joint_scales_all_words': BRAC_SMALL, 'integer_record_measures': INT_MEASURES,
@@ -200,6 +312,9 @@ def build(tier, seed):
                                                  'int8 ndarray (relation words)'],
                    'integer_array_dtypes': ['int64', 'int8', 'uint8 (non-negative words)'],
                    'edge_fraction_pairs': EDGE_FRACS, 'edge_fraction_measures': EDGE_MEASURES,
+                   'object_statistics_generators': STATS_GENERATORS, 'object_statistics_scales': STATS_SCALES,
+                   'object_statistics_histories': STATS_HISTORIES,
+                   'object_statistics_levels_in_g': [[a, float(q)] for a, q in STATS_LEVELS],
                    'history': 'other record 3*reversed(w)+1 (+ one sample 2), stat generators %s, lazy properties %s'
                               % (list(STAT_GENERATORS), list(LAZY))},
         'required_classes': ['decided', 'exact-tie', 'rounding-tie', 'exact-tie-lower', 'exact-tie-upper',
@@ -213,7 +328,8 @@ def build(tier, seed):
                              'int-array-list', 'int-record-i16x8192',
                              'edge-fraction', 'edge-fraction-decided', 'default-options', 'history-object',
                              'brac-history-object', 'brac-threshold-next-to-sample', 'purity', 'a-b-a',
-                             'one-sample'],
+                             'one-sample', 'stats-weak-record', 'stats-fresh-object', 'stats-after-reset-values',
+                             'stats-sigdur-checked'],
         'assumptions': [
             'sample values outside {-2..2}, lengths above the bound, dt / fractions / thresholds outside the menus '
             'are not examined',
@@ -234,6 +350,13 @@ def build(tier, seed):
             'narrow / unsigned integer records are examined with the alphabet values and with the alphabet times a power of two that reaches '
             'the top of the type (int8 x32, int16 x8192, int32 x2^29, uint8 x64, uint16 x16384), and calc_sig_dur_vals is given a Python '
             'list (documented as array-like): squares used to be evaluated in the array dtype / raise TypeError (repaired in /repo)',
+            'object-level statistics: sd_start / sd_end stored by generate_duration_stats (also through '
+            'generate_all_motion_stats) are the significant-duration start / end of the array variant (running sum of '
+            'squares) with the default fractions 0.05 / 0.95, t_595 their difference, t_b01 / t_b05 / t_b10 the bracketed '
+            'durations at 0.01 / 0.05 / 0.1 g; checked whenever the generator returns (IndexError where no sample is '
+            'strictly inside is the documented report; AttributeError from the missing np.trapz on NumPy >= 2 for records '
+            'above 0.01 g is outside the properties and counted as disabled).  What is stored when nothing exceeds a level '
+            'is not constrained; levels for which g = 9.8 and g = 9.81 m/s2 select different samples are skipped',
             'a query leaves its arguments unchanged: the array given to calc_sig_dur_vals, the object, and the '
             'series returned by a user measure (the staircase measure hands out its own stored array)',
             'zero-prefix shift by k*dt is asserted where the exact running series of the measure is shift-covariant '
@@ -602,6 +725,9 @@ def run_case(case):
                     ok, out = guarded(r, claim, subf, acc.mode, cnt, call_impl, m, None, sig_h, dt, FR_F[i], FR_F[j], True)
                     if ok and acc.mode != 'none':
                         check_pair(r, claim, subf, out, acc, dt, n)
+        # ------------------------------------------------------------ object-level statistics
+        if with_rel:
+            object_stats(r, w, dt, acc_by[('array', dy)][p_def], cnt)
         # ------------------------------------------------------------ relations
         scaled = []
         if with_rel:
@@ -790,6 +916,13 @@ def snippet(case, v):
             "    for rec in (np.array(other, float), a):\n"
             "        im.calc_sig_dur(s); im.calc_brac_dur(s, 0.5); s.generate_cumulative_stats(); s.velocity; s.pga\n"
             "        s.reset_values(rec)\n"
+            "if 'generator' in sub:   # object-level statistics\n"
+            "    if sub['object_history'] != 'fresh':\n"
+            "        s = eqsig.AccSignal(2.0 ** -7 * np.array([3 * x + 1 for x in reversed(sub['w'])] + [2], float), sub['dt'])\n"
+            "        getattr(s, sub['generator'])(); s.reset_values(a)\n"
+            "    getattr(s, sub['generator'])()\n"
+            "    print({k: getattr(s, k, 'MISSING') for k in ('sd_start', 'sd_end', 't_595', 't_b01', 't_b05', 't_b10')})\n"
+            "    print('calc_sig_dur_vals', im.calc_sig_dur_vals(a, sub['dt'], se=True))\n"
             "stair = lambda q: np.cumsum(np.abs(q.values))\n"
             "if 'after_companion' in sub:   # the same calls on the companion record first\n"
             "    b = np.array(sub['after_companion'], float)\n"
